@@ -319,9 +319,127 @@ func runC08(c *core.Ctx) {
 			removeAll(root)
 		}
 	}
+	c08Shapes(c, &acc, &rej)
 	c.Obs("correct_nestings_accepted", acc)
 	c.Obs("defective_nestings_rejected", rej)
 	_ = os.Remove
+}
+
+// c08Shapes: nestings whose shape the three-step builder does not produce.
+//   - a sublayout with ONE step (its first step is its last step: the summary carries that step's
+//     materials AND products): the parent's product rules see what that step produced;
+//   - one functionary carrying out TWO steps of a layout as sublayouts: each step is replaced by the
+//     summary of its own sublayout.
+func c08Shapes(c *core.Ctx, acc, rej *int64) {
+	if c.Shard != 5%c.NShards {
+		return
+	}
+	fast := gen.Fast(Pool(c))
+	owner, D, E, F := fast[0], fast[1], fast[2], fast[3]
+	allow := [][]string{{"ALLOW", "*"}}
+	// writes a sublayout with the given steps (each: name, functionary, products) for parent step `pstep` by D
+	writeSub := func(linkDir, pstep string, dsse bool, steps []struct {
+		name  string
+		fn    gen.KeyPair
+		prods map[string]string
+	}) error {
+		var ls []intoto.Step
+		keys := map[string]intoto.Key{}
+		subDir := filepath.Join(linkDir, fmt.Sprintf(intoto.SublayoutLinkDirFormat, pstep, D.Pub.KeyID))
+		mkdirs(subDir)
+		for _, st := range steps {
+			ls = append(ls, gen.Step(st.name, 1, gen.KeyIDs(st.fn), allow, allow))
+			keys[st.fn.Pub.KeyID] = st.fn.Pub
+			if _, _, err := gen.WriteLink(subDir, gen.NewLink(st.name, gen.Artifacts(map[string]string{"input": "in\n"}), gen.Artifacts(st.prods)), st.fn.Priv, dsse); err != nil {
+				return err
+			}
+		}
+		md, err := gen.SignedMeta(gen.NewLayout(ls, nil, keys), dsse, D.Priv)
+		if err != nil {
+			return err
+		}
+		return md.Dump(filepath.Join(linkDir, gen.LinkName(pstep, D.Pub.KeyID)))
+	}
+	type step = struct {
+		name  string
+		fn    gen.KeyPair
+		prods map[string]string
+	}
+	for _, dsse := range []bool{false, true} {
+		for _, runDir := range []bool{false, true} {
+			for _, sc := range []string{"one-step-sublayout/clean", "one-step-sublayout/forbidden-product", "two-step-sublayout/forbidden-product",
+				"two-sublayouts-of-one-functionary/clean", "two-sublayouts-of-one-functionary/first-has-forbidden-product", "two-sublayouts-of-one-functionary/second-has-forbidden-product"} {
+				id := fmt.Sprintf("shape/%s/dsse=%v/rundir=%v", sc, dsse, runDir)
+				if !c.Want(id) {
+					continue
+				}
+				root := filepath.Join(c.WorkDir, "c08-shape")
+				os.RemoveAll(root)
+				linkDir, finalDir := filepath.Join(root, "links"), filepath.Join(root, gen.RunDirName)
+				mkdirs(linkDir, finalDir)
+				writeFile(filepath.Join(finalDir, "keep"), "x")
+				var layout intoto.Layout
+				var err error
+				wantOK := strings.HasSuffix(sc, "/clean")
+				noEvil := [][]string{{"DISALLOW", "evil.bin"}, {"ALLOW", "*"}}
+				switch {
+				case strings.HasPrefix(sc, "one-step-sublayout"), strings.HasPrefix(sc, "two-step-sublayout"):
+					prods := map[string]string{"app.bin": "app\n"}
+					if !wantOK {
+						prods["evil.bin"] = "evil\n"
+					}
+					steps := []step{{"only", E, prods}}
+					if strings.HasPrefix(sc, "two-step") {
+						steps = []step{{"first", F, map[string]string{"tmp": "t\n"}}, {"second", E, prods}}
+					}
+					err = writeSub(linkDir, "delegated", dsse, steps)
+					layout = gen.NewLayout([]intoto.Step{gen.Step("delegated", 1, gen.KeyIDs(D), allow, [][]string{{"REQUIRE", "app.bin"}, {"DISALLOW", "evil.bin"}, {"ALLOW", "*"}})}, nil, gen.KeyMap(D))
+				default:
+					p1, p2 := map[string]string{"src.c": "s\n"}, map[string]string{"app.bin": "app\n"}
+					if strings.Contains(sc, "first-has") {
+						p1["evil.bin"] = "evil\n"
+					}
+					if strings.Contains(sc, "second-has") {
+						p2["evil.bin"] = "evil\n"
+					}
+					if err = writeSub(linkDir, "fetch", dsse, []step{{"a", E, map[string]string{"x": "x\n"}}, {"b", F, p1}}); err == nil {
+						err = writeSub(linkDir, "build", dsse, []step{{"a", F, map[string]string{"y": "y\n"}}, {"b", E, p2}})
+					}
+					layout = gen.NewLayout([]intoto.Step{
+						gen.Step("fetch", 1, gen.KeyIDs(D), allow, append([][]string{{"REQUIRE", "src.c"}}, noEvil...)),
+						gen.Step("build", 1, gen.KeyIDs(D), allow, append([][]string{{"REQUIRE", "app.bin"}}, noEvil...)),
+					}, nil, gen.KeyMap(D))
+				}
+				if err != nil {
+					c.Inconclusive("harness: cannot build shape: " + core.MsgClass(err.Error()))
+					continue
+				}
+				md, _ := gen.SignedMeta(layout, dsse, owner.Priv)
+				a := VerifyArgs{Layout: md, Keys: gen.KeyMap(owner), LinkDir: linkDir, Cwd: finalDir}
+				if runDir {
+					a.RunDir, a.Cwd = gen.RunDirName, root
+				}
+				c.Begin(id)
+				obs := Verify(a)
+				c.End(id)
+				c.Eval(1)
+				detail := map[string]any{"shape": sc, "dsse": dsse, "rundir": runDir, "error": errStr(obs.Err)}
+				reportTrace(c, id, obs, detail)
+				c.Class("shape", sc, dsse, runDir)
+				switch {
+				case wantOK && !obs.Accepted():
+					c.Violation("correct nesting rejected ("+sc+"): "+core.MsgClass(stripDirs(errStr(obs.Err), root)), id, detail)
+				case !wantOK && obs.Accepted():
+					c.Violation("the parent's rules were not evaluated against the summary of the step's own sublayout: forbidden product accepted ("+sc+")", id, detail)
+				case wantOK:
+					*acc++
+				default:
+					*rej++
+				}
+				os.RemoveAll(root)
+			}
+		}
+	}
 }
 
 func contains(l []string, s string) bool {
@@ -339,7 +457,7 @@ func init() {
 	core.Register(&core.Property{
 		ID:    "C08",
 		Level: "exploration",
-		Rule: "nestings of 2 and 3 (thorough: also 4) layouts built bottom-up (each layout: steps prep / sub / final, step sub delegated to a sublayout signed by the functionary's key, links in <step>.<keyid8>/, one inspection with a marker per level); one defect from {sublayout signed by a wrong key, expired ten minutes ago, rule violation, failing inspection command, violated inspection rule, threshold not met, missing link, link signed by an unauthorized key, tampered link} at every level x every step; parent rules of the 'true summary' flavour (must hold) and of the 'inner artifact' flavour (must fail); a sublayout offered by an unauthorized functionary (a stranger, the functionary of the earlier step, the functionary of the later step) next to honest evidence (must not be followed: no sublayout_enter, no marker); threshold-2 step with one plain link + one sublayout (agreeing / disagreeing / the plain link reporting no products at all); delegated steps named sub[12], s?b*, sub\\x (sound and with a missing link); threshold-1 step with an honest plain link plus a (sound / expired / incomplete) sublayout from a second authorized functionary; threshold-2 step with the same sublayout from two functionaries, a link missing in one directory only (repeated for map order); the innermost layout re-defining the key id of the root's prep functionary with other key material (its evidence counts, a link signed with the root's material does not); a sublayout whose summary reports its product under sha512 only while the parent's evidence uses sha256 (rejected at the parent); x 2 wrappers x 2 entry points. Oracle: ground truth by construction + markers + sublayout_enter events + trace automaton. " +
+		Rule: "nestings of 2 and 3 (thorough: also 4) layouts built bottom-up (each layout: steps prep / sub / final, step sub delegated to a sublayout signed by the functionary's key, links in <step>.<keyid8>/, one inspection with a marker per level); one defect from {sublayout signed by a wrong key, expired ten minutes ago, rule violation, failing inspection command, violated inspection rule, threshold not met, missing link, link signed by an unauthorized key, tampered link} at every level x every step; parent rules of the 'true summary' flavour (must hold) and of the 'inner artifact' flavour (must fail); a sublayout offered by an unauthorized functionary (a stranger, the functionary of the earlier step, the functionary of the later step) next to honest evidence (must not be followed: no sublayout_enter, no marker); threshold-2 step with one plain link + one sublayout (agreeing / disagreeing / the plain link reporting no products at all); delegated steps named sub[12], s?b*, sub\\x (sound and with a missing link); threshold-1 step with an honest plain link plus a (sound / expired / incomplete) sublayout from a second authorized functionary; threshold-2 step with the same sublayout from two functionaries, a link missing in one directory only (repeated for map order); the innermost layout re-defining the key id of the root's prep functionary with other key material (its evidence counts, a link signed with the root's material does not); a sublayout whose summary reports its product under sha512 only while the parent's evidence uses sha256 (rejected at the parent); sublayouts with one step only, and one functionary carrying out two steps of a layout as sublayouts (clean / with a product the parent forbids in the one or in the other); x 2 wrappers x 2 entry points. Oracle: ground truth by construction + markers + sublayout_enter events + trace automaton. " +
 			"non-trivial = at least one sublayout entered or deliberately not entered; distinct = (depth, defect, level, step, flavour, special, wrapper, entry point)",
 		Assumptions: []string{"sublayouts are signed with keys (the library looks the key up in the parent's keys section); certificate-authorized sublayout signers are not exercised"},
 		Workers:     func(string) int { return 16 },
